@@ -48,12 +48,27 @@ def descriptor(kind, rng, inner=None):
         while (len(body) + 2) % 4:
             body += b"\x00"
         return bytes([0x0C, len(body)]) + body
+    if kind == "forwarded_status_only":
+        # the copy destination ended with a status other than CHECK CONDITION: source and status, no sense data to forward
+        return bytes([0x0C, 0x02, rng.choice([0x01, 0x02, 0x81]), rng.choice([0x08, 0x18, 0x28, 0x30, 0x40])])
+    if kind == "vendor_empty":
+        return bytes([rng.choice([0x80, 0x81, 0xFF]), 0x00])
+    if kind == "progress":
+        return bytes([0x0A, 0x06, rng.randrange(16), rng.getrandbits(8), rng.getrandbits(8), 0x00, rng.getrandbits(8), rng.getrandbits(8)])
+    if kind == "user_data_segment":
+        inner = build(0x72, 0, 0x0A, 0x0D, 0x02, 8)
+        return bytes([0x0B, 0x0E, 0x00, 0x00]) + bytes(rng.getrandbits(8) for _ in range(4)) + inner
+    if kind == "direct_access_block":
+        return bytes([0x0D, 0x1E, 0xA0, 0x00, 0x80 | rng.getrandbits(7), rng.getrandbits(8), rng.getrandbits(8), rng.getrandbits(8)]) + bytes(rng.getrandbits(8) for _ in range(24))
+    if kind == "osd_object_id":
+        return bytes([0x06, 0x20]) + bytes(rng.getrandbits(8) for _ in range(32))
     if kind == "vendor":
         return bytes([0x80, 0x04, 1, 2, 3, 4])
     raise KeyError(kind)
 
 
-DESCRIPTOR_KINDS = ["information", "command_specific", "sense_key_specific", "fru", "stream", "block", "ata_status", "forwarded", "vendor"]
+DESCRIPTOR_KINDS = ["information", "command_specific", "sense_key_specific", "fru", "stream", "block", "ata_status", "forwarded", "vendor",
+                    "forwarded_status_only", "vendor_empty", "progress", "user_data_segment", "direct_access_block", "osd_object_id"]
 
 
 def build_with_descriptors(rc, key, asc, ascq, descs):
